@@ -103,7 +103,32 @@ def classify_guard(ctx):
     if k[0] != "cmp":
         return None
     from .common import _poly_from_key_cache as cache
-    return cache.get(k[2]), k[1], cache.get(k[3]), b
+    return oriented(k, b)
+
+
+def oriented(k, b):
+    """a recorded comparison with the side that mentions the argument on the left and the bound on the right
+    (`eps > |x|` is recorded as not(eps <= |x|) and is returned as |x| < eps)"""
+    from .common import _poly_from_key_cache as cache
+    lhs, op, rhs = cache.get(k[2]), k[1], cache.get(k[3])
+    if lhs is not None and rhs is not None and op in ("<", "<="):
+        lv = any(a[0] == "v" for a in all_var_atoms(lhs))
+        rv = any(a[0] == "v" for a in all_var_atoms(rhs))
+        if rv and not lv:
+            return rhs, {"<": "<=", "<=": "<"}[op], lhs, not b
+    return lhs, op, rhs, b
+
+
+def all_var_atoms(p, out=None):
+    out = set() if out is None else out
+    for a in p.atoms():
+        if a[0] in ("v", "c"):
+            out.add(a)
+        elif a[0] == "f":
+            all_var_atoms(a[2], out)
+        elif a[0] == "u":
+            all_var_atoms(a[1], out)
+    return out
 
 
 def analyse(chk, F, body, who, n, orders, label):
@@ -236,11 +261,14 @@ def lifting(chk, F, ty, n, body):
             if len(free) != 1 or free[0][0][0] != "cmp":
                 chk.ob(key0 + "|shape", False, "one guard on the real part", body_loc(F, body), found=path_descr(ctx))
                 continue
-            small = free[0][2]
+            _, gop, _, small = oriented(free[0][0], free[0][2])
+            if gop not in ("<", "<="):
+                chk.ob(key0 + "|shape", False, "the switch is a `<` comparison", body_loc(F, body), found=path_descr(ctx))
+                continue
             if small:
                 # the series arm: lifting of the polynomial the R-level analysis extracted
                 sc = scalar_paths(F, body)
-                polys = [unref(v).v for c, v in sc if [t[2] for t in c.trace] == [True]]
+                polys = [unref(v).v for c, v in sc if len(c.trace) == 1 and oriented(c.trace[0][0], c.trace[0][2])[3]]
                 base = polys[0].subst(lambda a: X if a == XA else None) if polys else None
             else:
                 base = definition(n, X)
